@@ -21,7 +21,7 @@ LEVEL_NOTE = "Relies on C11 for time_at (boundary floats come from the engine it
 RULE = c11.RULE + " Each case asks ~300-1500 (time, tag) questions per engine."
 EXHAUSTIVE_PART = c11.EXHAUSTIVE_PART
 ASSUMPTIONS = ["time_at is correct (C11)", "times stay below 1e5 s so float resolution is far below a tick"]
-MONITORS = ["roundtrip", "pause_interior", "window", "warp_stretch", "monotone", "independence", "order_independence", "absolute_times"]
+MONITORS = ["roundtrip", "pause_interior", "window", "warp_stretch", "monotone", "independence", "order_independence", "absolute_times", "engine_after_timing_data_edit"]
 REQUIRED = ["stop_inside_warp", "stop_at_warp_start", "delay_inside_warp", "pause_at_warp_end", "warp_at_beat_0",
             "bpm_change_inside_warp", "nested_warps", "touching_warps", "corpus",
             "different_kinds_on_adjacent_ticks", "warp_one_tick_after_a_stop", "pause_boundary_at_time_zero"]
@@ -93,6 +93,9 @@ def specs_for(eng, tl, beats, rng_seed, tags):
     for x in beats:
         if not tl.in_warp(x):
             out.append(("roundtrip", x, ("time_at", x, None), None))
+            # the same with an explicit tag on both conversions (every tag but WARP, which asks for the stretch start)
+            tg = tags[1 + (len(out) % 6)]
+            out.append(("roundtrip", x, ("time_at", x, tg), tg))
         for tag in tags:
             t = float(eng.time_at(B(x), tag))
             if t in seen:
@@ -258,6 +261,28 @@ def check(ctx, case):
             got0 = e_off.beat_at(float(tl_off.time(Fraction(-1))))
             if Fraction(got0) != -1:
                 ctx.violation("absolute:beat-minus-one-at-reference-time", {"offset": off, "got": str(got0), "timing": timing})
+
+    # an engine kept in use after the caller edited the TimingData it was built from: whatever the engine reads,
+    # its two conversions must still agree with each other (beats before beat 0 included)
+    if case["kind"] != "grid" or ctx.evaluations % 4 == 1:
+        from decimal import Decimal
+        from simfile.timing import BeatValue
+        from simfile.timing.engine import TimingEngine
+
+        td = G.build_timing_data(timing)
+        old = TimingEngine(td)
+        old.beat_at(0.0)
+        td.offset = td.offset + Decimal("0.375")
+        td.bpms[0] = BeatValue(td.bpms[0].beat, td.bpms[0].value * 2)
+        TimingEngine(td)
+        ctx.mon("engine_after_timing_data_edit")
+        for x in [b for b in beats if not tl.in_warp(b)][:: max(1, len(beats) // 25)] + [Fraction(-1), Fraction(-7, 48), Fraction(-96, 48)]:
+            bx = Beat(x.numerator, x.denominator)
+            back = old.beat_at(float(old.time_at(bx)))
+            if Fraction(back) != x:
+                ctx.violation("roundtrip:engine-disagrees-with-itself-after-its-timing-data-was-edited",
+                              {"beat": str(x), "got": str(back), "timing": timing})
+                break
 
     # independence from unrelated earlier events
     for ei in (1, 2):
